@@ -404,11 +404,19 @@ func findObject(pd *container, path string) (container, string) {
 }
 
 func (d *partialDoc) set(key string, val *lazyNode) error {
+	if *d == nil {
+		// The document is the JSON value null.
+		return fmt.Errorf("unable to set key %s: document is not an object: %w", key, ErrInvalid)
+	}
 	(*d)[key] = val
 	return nil
 }
 
 func (d *partialDoc) add(key string, val *lazyNode) error {
+	if *d == nil {
+		// The document is the JSON value null.
+		return fmt.Errorf("unable to add key %s: document is not an object: %w", key, ErrInvalid)
+	}
 	(*d)[key] = val
 	return nil
 }
